@@ -122,10 +122,11 @@ def sheetMapCompatible (base : G) (n : Nat) (sigma : Nat → Nat → Nat → Nat
   (List.range n).all fun k => base.indices.all fun i => base.chambers.all fun d =>
     sigma k i d < n && sigma (sigma k i d) i (base.op i d) == k
 
-/-- every 2-orbit of the cover has a length dividing the degree of the base -/
+/-- every (i,j)-orbit of the cover (all i < j) has a length dividing the degree `m_ij` of the
+    base (2 for non-adjacent indices) -/
 def orbitLengthsDivideDegrees (base cov : G) : Bool :=
-  (List.range cov.dim).all fun i => cov.chambers.all fun d =>
-    match cov.orbitLen i (i + 1) d, mDef base i (i + 1) (proj base.size d) with
+  (pairsLt cov.dim).all fun (i, j) => cov.chambers.all fun d =>
+    match cov.orbitLen i j d, mDef base i j (proj base.size d) with
     | some r, some m => r != 0 && m % r == 0
     | _, _ => false
 
@@ -207,20 +208,24 @@ def curvature (g : G) : Option Q :=
 def orbitReps (g : G) (i j : Nat) : List Nat :=
   g.chambers.filter fun d => listMin (g.component [i, j] d) == d
 
+/-- orders of the cone points of a 2-dimensional symbol: the branching numbers > 1 of the
+    2-orbits, one per orbit, all three index pairs (`v_02 = 2 / r_02`); 0 marks an undefined one -/
+def conePoints2d (g : G) : List Nat :=
+  [(0, 1), (1, 2), (0, 2)].flatMap fun (ij : Nat × Nat) =>
+    (orbitReps g ij.1 ij.2).filterMap fun d =>
+      match g.vDef ij.1 ij.2 d with
+      | some v => if v == 1 then none else some v
+      | none => some 0
+
 /-- A connected 2-dimensional symbol has trivial orbifold fundamental group iff it has no
     mirrors (loopless), is orientable (bipartite), its underlying closed surface has Euler
-    characteristic 2 (vertices − edges + faces, one per orbit) and it has no cone point, one
-    cone point, or two of coprime orders. -/
+    characteristic 2 and it has no cone point, one cone point, or two of coprime orders.
+    Euler characteristic of the triangulation by chambers of a loopless symbol:
+    vertices = number of 2-orbits (all three index pairs), edges = 3·|D|/2, triangles = |D|. -/
 def simplyConnected2d (g : G) : Bool :=
   g.dim == 2 && g.loopless && g.bipartite && connected g &&
-  (orbitReps g 1 2).length + (orbitReps g 0 1).length == (orbitReps g 0 2).length + 2 &&
-  (let cones :=
-      ([(0, 1), (1, 2), (0, 2)].flatMap fun (ij : Nat × Nat) =>
-        (orbitReps g ij.1 ij.2).filterMap fun d =>
-          match g.vDef ij.1 ij.2 d with
-          | some v => if v > 1 then some v else none
-          | none => some 0)
-   match cones with
+  2 * ((orbitReps g 1 2).length + (orbitReps g 0 1).length + (orbitReps g 0 2).length) == g.size + 4 &&
+  (match conePoints2d g with
    | [] => true
    | [v] => v != 0
    | [v, w] => v != 0 && w != 0 && Nat.gcd v w == 1
@@ -362,5 +367,22 @@ def countsAgree (base : G) (k : Nat) (cs : List G) : Bool :=
   (List.range k).all fun j0 =>
     let j := j0 + 1
     (cs.filter fun c => sheets base c == some j).length == countCovers base j
+
+/-! ### triviality of a finitely presented group (as far as the covers of C05 need it) -/
+
+/-- exponent sum of generator `x` in a word -/
+def expSum (w : List Int) (x : Nat) : Int :=
+  w.foldl (fun acc l => if l == (x : Int) then acc + 1 else if l == -(x : Int) then acc - 1 else acc) 0
+
+/-- `⟨x₁…x_n | rels⟩` is certified trivial: no generators, or one generator whose relator
+    exponents have gcd 1 (the simply connected 2-orbifolds S²(p), S²(p,q) with coprime p, q
+    have such presentations).  `none` = not decided by this criterion. -/
+def presentationTrivial (gens : Nat) (rels : List (List Int)) : Option Bool :=
+  if gens == 0 then some true
+  else if gens == 1 then
+    some (rels.foldl (fun g w => Nat.gcd g (expSum w 1).natAbs) 0 == 1)
+  else
+    -- necessary: the abelianisation must be trivial, so some relator must involve each generator
+    if (List.range gens).any fun x => rels.all fun w => expSum w (x + 1) == 0 then some false else none
 
 end DSymVerif.SpecC05
